@@ -23,8 +23,9 @@ RULE = ("L2: JobServerSemaphore over a real pipe holding n in 1..4 tokens (recur
         "a child task / re-acquires (the builder's yield-job-while-waiting pattern); yield counts are the schedule. "
         "After every step: holders <= limit and holders + bytes in the pipe <= limit (a token is never duplicated); no "
         "exception; all tasks finish (a task still blocked after 20 s although every step takes microseconds is a lost "
-        "wake-up, re-run once before it is reported); at the end the pipe holds exactly n tokens. Non-trivial: some "
-        "task had to wait and a release handed its slot to a waiter. "
+        "wake-up, re-run once before it is reported); at the end the pipe holds exactly n tokens. A further client of the "
+        "same job server (make, a sub-make) takes tokens from the pipe and returns them after generated delays (the "
+        "reader-callback path). Non-trivial: some task had to wait and was served by a hand-over or by a returned token. "
         "L1: generated dense project (shared packages, tools) + 0-2 edits, built sequentially at X and from scratch at W "
         "with -j N (N in 2..8) or below an emulated make job server (FIFO with N-1 tokens), generated per-step "
         "durations (0-80 ms), optionally one failing step and -k. Event log oracle: (1) a step starts only after the "
@@ -40,7 +41,7 @@ ASSUMPTIONS = ["the asyncio event loop is single threaded: the generated yield c
                "of the event log, never time stamps",
                "Bob runs in the harness process; suspected violations are re-run in a fresh process"]
 TIME_BUDGET = {"quick": 250, "thorough": 1700}
-BATCH = 8
+BATCH = 4
 
 # ---------------------------------------------------------------------------------------------------------------
 # L2
@@ -63,7 +64,7 @@ def run_sem_once(case, timeout=20):
         os.write(w, b"+" * n)
     loop = asyncio.new_event_loop()
     asyncio.set_event_loop(loop)
-    st_ = {"holders": 0, "waiting": 0, "waited": 0, "handover": 0, "max": 0, "trace": []}
+    st_ = {"holders": 0, "waiting": 0, "waited": 0, "handover": 0, "max": 0, "trace": [], "ext": 0, "woken_by_pipe": 0}
     err = []
     def check(where):
         pb = _pipe_bytes(r)
@@ -73,8 +74,9 @@ def run_sem_once(case, timeout=20):
         if st_["holders"] > limit:
             raise SemFail("limit-exceeded", "%s: %d holders, limit %d (tokens %d%s)" %
                           (where, st_["holders"], limit, n, " + implicit slot" if rec else ""))
-        if st_["holders"] + pb > limit:
-            raise SemFail("token-duplicated", "%s: %d holders and %d tokens in the pipe, limit %d" % (where, st_["holders"], pb, limit))
+        if st_["holders"] + st_["ext"] + pb > limit:
+            raise SemFail("token-duplicated", "%s: %d holders, %d tokens held by the other job server client and %d tokens in "
+                          "the pipe, limit %d" % (where, st_["holders"], st_["ext"], pb, limit))
     try:
         sem = JobServerSemaphore((r, w), rec)
         async def acquire(name):
@@ -117,8 +119,26 @@ def run_sem_once(case, timeout=20):
                                 k.cancel()
                         await acquire(name)
                 release(name)
+        async def other_client(script):
+            # another client of the same job server (make, a sub-make): takes tokens straight from the pipe and gives them back
+            for pre, hold in script:
+                await yields(pre)
+                try:
+                    tok = os.read(r, 1)
+                except BlockingIOError:
+                    continue
+                st_["ext"] += 1
+                st_["trace"].append("other client takes a token")
+                await yields(hold)
+                st_["ext"] -= 1
+                if st_["waiting"]:
+                    st_["woken_by_pipe"] += 1
+                os.write(w, tok)
+                st_["trace"].append("other client returns a token")
         async def main():
             ts = [asyncio.ensure_future(task("T%d" % i, holds)) for i, holds in enumerate(case["tasks"])]
+            if case.get("other"):
+                ts.append(asyncio.ensure_future(other_client(case["other"])))
             done, pending = await asyncio.wait(ts, timeout=timeout, return_when=asyncio.FIRST_EXCEPTION)
             for t in done:
                 if t.exception() is not None:
@@ -169,9 +189,10 @@ def check_sem(ctx, case):
         ctx.fail("sem-" + e.sig, "JobServerSemaphore(recursive=%s), %d tokens, %d tasks: %s" %
                  (case["recursive"], case["n"], len(case["tasks"]), e.detail), case)
         return
-    nt = s["waited"] > 0 and s["handover"] > 0
+    nt = s["waited"] > 0 and (s["handover"] > 0 or s["woken_by_pipe"] > 0)
     ctx.record(jhash(case), nt, ["L2", "L2:recursive" if case["recursive"] else "L2:internal"] +
-               (["L2:waited"] if s["waited"] else []) + (["L2:handover"] if s["handover"] else []),
+               (["L2:waited"] if s["waited"] else []) + (["L2:handover"] if s["handover"] else []) +
+               (["L2:token-returned-by-other-client-while-waiting"] if s["woken_by_pipe"] else []),
                {"layer": "L2", "n": case["n"], "recursive": case["recursive"], "tasks": len(case["tasks"]),
                 "max_holders": s["max"], "handovers": s["handover"]})
 
@@ -196,8 +217,10 @@ def _decode(code):
         return out
     return [holds(0) for _ in range(2 + nxt() % 6)]
 
-sem_case_st = st.tuples(st.booleans(), st.integers(0, 4), st.lists(st.integers(0, 63), max_size=70)).map(
-    lambda t: {"layer": "L2", "recursive": t[0], "n": (min(t[1], 3) if t[0] else max(1, t[1])), "tasks": _decode(t[2])})
+sem_case_st = st.tuples(st.booleans(), st.integers(0, 4), st.lists(st.integers(0, 63), min_size=30, max_size=90),
+                        st.lists(st.tuples(st.integers(0, 4), st.integers(0, 6)).map(list), max_size=4)).map(
+    lambda t: {"layer": "L2", "recursive": t[0], "n": (min(t[1], 3) if t[0] else max(1, t[1])), "tasks": _decode(t[2]),
+               "other": t[3]})
 
 # ---------------------------------------------------------------------------------------------------------------
 # L1
@@ -260,6 +283,20 @@ def step_graph(root, model):
 def key_of(d):
     return d.replace("/", "_")
 
+def widen(model):
+    """let the root recipe depend on every other package directly: independent sub-trees can then be built in parallel and
+    packages are reached on several paths"""
+    import copy
+    m = copy.deepcopy(model)
+    root = m["recipes"][0]
+    bodies = [root["body"]] + list((root.get("multi") or {}).values())
+    for b in bodies[:1]:
+        have = {d["name"] for d in b.get("depends", [])}
+        for name in projgen._later_pkgs(m, 0):
+            if name not in have:
+                b.setdefault("depends", []).append({"name": name, "use": ["result"]})
+    return m
+
 def run_build_case(ctx, case, confirm=False):
     run = bobproc.script if confirm else bobproc.direct
     base = ctx.tmpdir()
@@ -269,6 +306,8 @@ def run_build_case(ctx, case, confirm=False):
     try:
         hist = projgen.apply_history(case["model"], case["edits"])
         model = hist[-1][0] if hist else case["model"]
+        if case.get("widen"):
+            model = widen(model)
         N = case["jobs"]
         # sequential reference
         projgen.render(model, X)
@@ -439,11 +478,12 @@ def build_case_st(quick):
         "layer": st.just("L1"),
         "model": projgen.model_st(4, 8 if quick else 10, richness=1, dense=True),
         "edits": st.lists(projgen.edit_st, max_size=2),
-        "jobs": st.sampled_from([2, 2, 3, 3, 4, 8]),
+        "jobs": st.sampled_from([4, 3, 2, 8, 2, 3]),
         "durs": st.lists(st.sampled_from([0, 2, 3, 4, 5, 6, 8]), min_size=1, max_size=6),
         "fail": st.one_of(st.none(), st.none(), I),
         "keep": st.booleans(),
         "ext": st.sampled_from([False, False, True]),
+        "widen": st.sampled_from([True, True, True, False]),
     })
 
 def check_build(ctx, case):
@@ -462,13 +502,13 @@ def shard(ctx):
     try:
         _shard(ctx)
     finally:
-        ctx.mod.BATCH = 8
+        ctx.mod.BATCH = 4
 
 def _shard(ctx):
     layers = os.environ.get("C06_LAYERS", "L2,L1").split(",")      # debugging aid
     if "L2" in layers:
         run_hypothesis(ctx, sem_case_st, lambda c: check_sem(ctx, c), ctx.n(16000, 400000), shrink=True, salt="sem")
-    ctx.mod.BATCH = 8
+    ctx.mod.BATCH = 4
     if "L1" in layers:
         run_hypothesis(ctx, build_case_st(ctx.quick()), lambda c: check_build(ctx, c), ctx.n(320, 5000), shrink=False,
                        salt="build", minimize=("edits",))
